@@ -3,6 +3,36 @@
 use crate::tr_core::*;
 use crate::types::*;
 
+fn contains_infer_ty(t: &Ty) -> bool {
+    crate::tr_stmt::contains_infer(t)
+}
+
+/// `|(k,_)|k` (n = 1) or `|(a,b,_)|(a,b)` (n = 2), any names
+fn regex_like(cl: &str, n: usize) -> bool {
+    // cl has no spaces
+    let inner = match cl.strip_prefix("|(") {
+        Some(x) => x,
+        None => return false,
+    };
+    let (params, body) = match inner.split_once(")|") {
+        Some(x) => x,
+        None => return false,
+    };
+    let ps: Vec<&str> = params.split(',').collect();
+    if ps.len() != n + 1 || ps[n] != "_" {
+        return false;
+    }
+    let is_id = |s: &str| !s.is_empty() && s.chars().all(|c| c.is_ascii_alphanumeric() || c == '_') && s != "_";
+    if !ps[..n].iter().all(|p| is_id(p)) {
+        return false;
+    }
+    if n == 1 {
+        body == ps[0]
+    } else {
+        body == format!("({},{})", ps[0], ps[1])
+    }
+}
+
 /// `t.as_ref()` / `t`: the name of the variable
 fn c_arg(e: &syn::Expr) -> Option<String> {
     match e {
@@ -106,7 +136,43 @@ impl<'a> Tr<'a> {
             }
             _ => {}
         }
+        if name == "into" && args.is_empty() {
+            return self.tr_into(recv);
+        }
         match recv.ty.clone() {
+            Ty::Table1 | Ty::Table2 if name == "binary_search_by_key" => {
+                nargs(self, 2)?;
+                let two = recv.ty == Ty::Table2;
+                // the closure must project the key columns: |(k, _)| k   /   |(k1, k2, _)| (k1, k2)
+                let cl = norm_tokens(args[1]).replace(' ', "");
+                let ok = if two {
+                    regex_like(&cl, 2)
+                } else {
+                    regex_like(&cl, 1)
+                };
+                if !ok {
+                    return self.unsup(format!("binary_search_by_key with a key closure `{}` that is not the projection of the key columns", norm_tokens(args[1])));
+                }
+                let key = self.tr_expr(args[0], env, None)?;
+                if key.callres {
+                    return self.unsup("call result as a key");
+                }
+                match (&key.ty, two) {
+                    (Ty::UInt, false) => self.lift(&[recv, key], Ty::ResOpaque(Box::new(Ty::Usize)), false, &|a| format!("(tblSearch1 {} {})", a[0], a[1])),
+                    (Ty::Tuple(ts), true) if ts.len() == 2 && ts[0] == Ty::UInt && ts[1] == Ty::UInt => {
+                        self.lift(&[recv, key], Ty::ResOpaque(Box::new(Ty::Usize)), false, &|a| format!("(tblSearch2 {} {}.1 {}.2)", a[0], a[1], a[1]))
+                    }
+                    (t, _) => self.unsup(format!("binary_search_by_key with a key of type {:?}", t)),
+                }
+            }
+            Ty::NatList if name == "contains" => {
+                nargs(self, 1)?;
+                let x = self.tr_expr(args[0], env, Some(&Ty::UInt))?;
+                if x.ty != Ty::UInt || x.callres {
+                    return self.unsup("`contains` on a layout table with something that is not an integer");
+                }
+                self.lift(&[recv, x], Ty::Bool, false, &|a| format!("(List.contains {} {})", a[0], a[1]))
+            }
             Ty::Slice => match name.as_str() {
                 "len" => {
                     nargs(self, 0)?;
@@ -412,6 +478,29 @@ impl<'a> Tr<'a> {
                 // the closure's result may be a panic: only a `match` may look at the value
                 out.callres = body.callres;
                 Ok(out)
+            }
+            "or_else" => {
+                nargs(self, 1)?;
+                let cl = match args[0] {
+                    syn::Expr::Closure(c) if c.inputs.is_empty() => c,
+                    _ => return self.unsup("`or_else` with something that is not a closure without parameters"),
+                };
+                self.pure_only += 1;
+                let body = self.tr_expr(&cl.body, env, Some(&Ty::Opt(Box::new(inner.clone()))));
+                self.pure_only -= 1;
+                let body = body?;
+                if body.eff() || body.callres {
+                    return self.unsup("`or_else` closure that may panic");
+                }
+                match &body.ty {
+                    Ty::Opt(t) => {
+                        let t = (**t).clone();
+                        self.check_compat(&t, &inner)?;
+                    }
+                    t => return self.unsup(format!("`or_else` closure of type {:?}", t)),
+                }
+                let ty = if contains_infer_ty(&inner) { body.ty.clone() } else { Ty::Opt(Box::new(inner)) };
+                self.lift(&[recv], ty, false, &|a| format!("(Option.orElse {} (fun _ => {}))", a[0], body.t))
             }
             "unwrap_or_default" => {
                 nargs(self, 0)?;
